@@ -57,6 +57,11 @@ def gen_filter(rng):
     return "".join(rng.choice(FILTER_ALPHABET) for _ in range(n))
 
 
+def bulk_filters(spec):
+    """A very long filter list (tens of kilobytes on grep's command line), written compactly in the case."""
+    return ["evt-%04d:%s" % (k, ("%08x" % ((k + 1) * 2654435761 % (1 << 32))) * 8)[:spec["w"]] for k in range(spec["n"])]
+
+
 def gen_patterns(rng):
     r = rng.random()
     if r < 0.45:
@@ -137,6 +142,10 @@ def gen_case(st, tier):
         else:
             t = rp.choice(ds_targets)
             ops.append({"op": "look", "target": t, "with_matches": rp.random() < 0.4})
+    if rk.random() < 0.002:
+        # more filter text than fits in any fixed-size chunk of a command line (but below the kernel's 128 KiB per argument)
+        ops.append({"op": "add", "target": "rp:rf", "patterns": {"bulk": {"n": rk.choice([700, 800, 1100, 1500]), "w": rk.choice([48, 50, 64])}},
+                    "max": 10000})
     # always end with a look-up on every implementation of the filterable spec
     for im in defined["impl"]:
         if im.endswith(".rf"):
@@ -160,6 +169,8 @@ def gen_content(st, case):
                 used.extend(x for x in p if isinstance(x, str))
             elif isinstance(p, dict) and "set" in p:
                 used.extend(p["set"])
+    bulk = [bf for o in case["ops"] if o["op"] == "add" and isinstance(o["patterns"], dict) and "bulk" in o["patterns"]
+            for bf in bulk_filters(o["patterns"]["bulk"])]
     used = [u for u in used if u] or ["zz"]
     n = rp.choice([0, 1, 2, 3, 5, 8, 12, 20])
     lines = []
@@ -183,8 +194,10 @@ def gen_content(st, case):
             parts.append(rp.choice(["\r", "\x0b", "\x0c", "\x1c", "\x1d", "\x1e", "\x85", "\u2028", "\u2029"]) + rp.choice(["", "a", "zz"]))
         line = rp.choice(["", " ", "-"]) .join(parts)
         lines.append("%s ~%d~" % (line, k))           # unique inert marker: exact output -> input attribution
+    for k, bf in enumerate(bulk):
+        lines.append("%s ~%d~" % (bf, 100000 + k))        # one line per filter of the long list: each must be kept
     redact = []
-    if rp.random() < 0.5:
+    if rp.random() < 0.5 and not bulk:
         redact = [rp.choice(["x", "9", "y", "ab", "0", "~1", "(", "error"])]     # a plain exclusion pattern for the cleaner path
     conc = None
     if rp.random() < 0.3:
@@ -318,7 +331,9 @@ class FilterWorld(object):
             if m["raw"] or not m["filterable"]:
                 return "rejected"
             targets = [t]
-        if isinstance(pats, dict) and "set" in pats:
+        if isinstance(pats, dict) and "bulk" in pats:
+            plist = bulk_filters(pats["bulk"])
+        elif isinstance(pats, dict) and "set" in pats:
             plist = list(pats["set"])
         elif isinstance(pats, str):
             plist = [pats]
@@ -347,6 +362,8 @@ def hash_str(x):
 
 
 def real_patterns(p):
+    if isinstance(p, dict) and "bulk" in p:
+        return bulk_filters(p["bulk"])
     if isinstance(p, dict) and "set" in p:
         return set(p["set"])
     if isinstance(p, dict) and "tuple" in p:
